@@ -99,7 +99,8 @@ func ProfileFor(focus, arm string) Profile {
 		p.Seg = true
 		p.SpanUs = 3_000_000
 	case "C02":
-		p.Shapes = []string{"binary", "suffix", "srv", "unknown", "mixed", "mixed"}
+		p.Shapes = []string{"binary", "suffix", "srv", "unknown", "mixed", "mixed", "late"}
+		p.BigAnswers = 0.25
 		p.OptInReply, p.Rcodes = 0.3, true
 		p.Classes = true
 	case "C03":
@@ -560,6 +561,9 @@ func genToken(r *rng, pr *Profile, qtype uint16) *plan.TokenSpec {
 	if r.p(pr.BigAnswers) {
 		a.PadTo = []int{400, 500, 520, 700, 1100, 1300, 2000, 4200, 9000, 30000, 66000}[r.intn(11)]
 	}
+	if a.Shape == "late" {
+		a.PadTo = []int{17000, 20000, 40000}[r.intn(3)]
+	}
 	if r.p(pr.OptInReply) {
 		o := &plan.UpOPT{Pos: r.intn(5), UDPSize: []uint16{512, 1232, 4096, 65535}[r.intn(4)]}
 		if r.p(0.5) {
@@ -754,6 +758,37 @@ func makeGarbage(r *rng, op *plan.ClientOp, proto string) {
 // finished plan.
 func specialize(r *rng, p *plan.Plan, focus, arm string) {
 	rp := p.Router
+	if arm == "prefetch" {
+		// cache hits in the last quarter of the lifetime: background refreshes
+		// running next to other requests (used by C04, C10 and C20)
+		if rp.Cache.MemSize == 0 {
+			rp.Cache.MemSize = 8 << 20
+		}
+		genCacheOps(r, p, "C19", arm)
+		// plus unrelated traffic right after the hits, so that recycled objects are picked up
+		n := len(rp.Ops)
+		for i := 0; i < n; i++ {
+			if !r.p(0.5) {
+				continue
+			}
+			o := rp.Ops[i]
+			ci := len(rp.Conns)
+			cc := rp.Conns[o.Conn]
+			cc.Idx = ci
+			rp.Conns = append(rp.Conns, cc)
+			idx := len(rp.Ops)
+			tok := fmt.Sprintf("t%d", 1000+idx)
+			op := plan.ClientOp{Idx: idx, Conn: ci, AtUs: o.AtUs + r.i64(0, 400), ID: uint16(r.u64()), Token: tok, NQ: 1, Class: 1, Type: o.Type, Bits: refdns.BitRD, Method: o.Method}
+			ls := append([][]byte{[]byte(tok)}, labelsOf(r.pick(zones))...)
+			for j := range ls {
+				ls[j] = mixCase(r, ls[j])
+			}
+			op.Labels = ls
+			rp.Ops = append(rp.Ops, op)
+			rp.Tokens[tok] = &plan.TokenSpec{Ans: plan.AnswerSpec{NAn: 2, TTLs: []uint32{60}, Shape: "plain"}, Acts: []plan.UpAction{{Kind: "reply", DelayUs: r.i64(100, 20000)}}}
+		}
+		return
+	}
 	switch focus {
 	case "C15":
 		genC15(r, p)
@@ -874,6 +909,12 @@ func genCacheOps(r *rng, p *plan.Plan, focus, arm string) {
 	}
 	srcs4 := []string{"192.0.2.7", "192.0.2.200", "198.51.100.9", "203.0.113.77", "100.64.1.1"}
 	srcs6 := []string{"2001:db8:a::5", "2001:db8:b:12::9", "2001:db8:ffff::1"}
+	if len(rp.Cache.IpMarker) > 0 {
+		// first / last addresses of ranges, neighbours just outside, a one-address range
+		rp.Cache.IpMarker = append(rp.Cache.IpMarker, plan.RangeSpec{Start: "100.64.1.1", End: "100.64.1.1", Label: "net-d"})
+		srcs4 = append(srcs4, "192.0.2.0", "192.0.2.255", "192.0.3.0", "198.51.100.0", "203.0.113.255", "100.64.1.0", "100.64.1.2")
+		srcs6 = append(srcs6, "2001:db8:a::", "2001:db8:a:ff:ffff:ffff:ffff:ffff", "2001:db8:a:100::", "2001:db8:b::")
+	}
 	nk := r.rng(1, 4)
 	var last int64
 	for k := 0; k < nk; k++ {
